@@ -488,7 +488,28 @@ type runOut struct {
 	final    obsT
 	partials []obsT
 	bad      string
+	seq      []string // identity of the rows of the final result in the order they were returned
 }
+
+// sortVariant is one way of asking for the rows: sort key, direction, ascending.  The property speaks
+// about the merged result whatever was asked for; the order of its rows is part of it.
+type sortVariant struct {
+	name string
+	opts []query.Option
+}
+
+var sortVariants = []sortVariant{
+	{"default", nil},
+	{"bytes-out", []query.Option{query.WithSortBy("bytes"), query.WithDirectionOut()}},
+	{"bytes-in-asc", []query.Option{query.WithSortBy("bytes"), query.WithDirectionIn(), query.WithSortAscending()}},
+	{"packets-sum", []query.Option{query.WithSortBy("packets"), query.WithDirectionSum()}},
+	{"packets-out-asc", []query.Option{query.WithSortBy("packets"), query.WithDirectionOut(), query.WithSortAscending()}},
+	{"bytes-default", []query.Option{query.WithSortBy("bytes")}},
+	{"packets-in", []query.Option{query.WithSortBy("packets"), query.WithDirectionIn()}},
+}
+
+// curVariant is the sort variant of the behaviour being executed (chosen per multiset of host results)
+var curVariant sortVariant
 
 func runOnce(resolvers *hosts.ResolverMap, q interface {
 	Query(context.Context, hosts.Hosts, *query.Args) (<-chan *results.Result, <-chan struct{})
@@ -497,8 +518,9 @@ func runOnce(resolvers *hosts.ResolverMap, q interface {
 	if timed {
 		qt = "time,iface,sip"
 	}
-	args := query.NewArgs(qt, "any", query.WithFormat("json"), query.WithFirst(fmt.Sprint(rangeBase-3600)), query.WithLast(fmt.Sprint(rangeBase+86400)),
-		query.WithNumResults(1000), query.WithQueryHosts(strings.Join(names, ",")))
+	opts := append([]query.Option{query.WithFormat("json"), query.WithFirst(fmt.Sprint(rangeBase - 3600)), query.WithLast(fmt.Sprint(rangeBase + 86400)),
+		query.WithNumResults(1000), query.WithQueryHosts(strings.Join(names, ","))}, curVariant.opts...)
+	args := query.NewArgs(qt, "any", opts...)
 	runner := gqdist.NewQueryRunner(resolvers, q)
 	var res *results.Result
 	panicked = hx.Catch(func() {
@@ -526,6 +548,9 @@ func runOnce(resolvers *hosts.ResolverMap, q interface {
 		return
 	}
 	var bad string
+	for _, row := range res.Rows {
+		out.seq = append(out.seq, fmt.Sprintf("%d|%s|%s|%s|%s", row.Labels.Timestamp.Unix(), row.Labels.Iface, row.Labels.Hostname, row.Labels.HostID, row.Attributes.SrcIP))
+	}
 	out.final, bad = project(res)
 	if bad != "" {
 		out.bad = bad
@@ -552,6 +577,11 @@ func Replay(seed uint64, racing int, in io.Reader, out io.Writer) {
 	var pool []hostT
 	timed := false
 	n, runs, cmps, bad, races := 0, 0, 0, 0, 0
+	// the rows of the final result, in the order returned, of the first behaviour seen per multiset of host
+	// results (and streaming flag): every other arrival order of the same multiset must return the same sequence
+	firstSeq := map[string][]string{}
+	firstOrder := map[string][]int{}
+	orderCmps, variantsUsed := 0, map[string]int{}
 	err := hx.Lines(in, func(line []byte) error {
 		if pool == nil {
 			var p poolT
@@ -618,8 +648,54 @@ func Replay(seed uint64, racing int, in io.Reader, out io.Writer) {
 		if err != nil {
 			return err
 		}
+		sortedOrder := append([]int{}, order...)
+		sort.Ints(sortedOrder)
+		gkey := fmt.Sprint(sortedOrder, b.Stream)
+		gh := 0
+		for _, c := range gkey {
+			gh = (gh*31 + int(c)) % 1000003
+		}
+		curVariant = sortVariants[(gh+int(seed))%len(sortVariants)]
+		variantsUsed[curVariant.name]++
 		res, rerr, p := runOnce(resolvers, &orderedQuerier{results: rs}, names, timed, b.Stream)
 		runs++
+		if p == "" && rerr == nil && res.bad == "" {
+			// the order of the returned rows under every sort variant: the same for every arrival order
+			for _, v := range sortVariants {
+				seq := res.seq
+				if v.name != curVariant.name {
+					saved := curVariant
+					curVariant = v
+					rsV, namesV, errV := build()
+					if errV != nil {
+						return errV
+					}
+					resV, rerrV, pV := runOnce(resolvers, &orderedQuerier{results: rsV}, namesV, timed, false)
+					curVariant = saved
+					runs++
+					if pV != "" || rerrV != nil || resV.bad != "" {
+						continue
+					}
+					seq = resV.seq
+				}
+				vkey := gkey + "|" + v.name
+				prev, ok := firstSeq[vkey]
+				if !ok {
+					firstSeq[vkey], firstOrder[vkey] = seq, append([]int{}, order...)
+					continue
+				}
+				orderCmps++
+				same := len(prev) == len(seq)
+				for i := 0; same && i < len(prev); i++ {
+					same = prev[i] == seq[i]
+				}
+				if !same {
+					emit(len(order), "row-order", []diff{{Cls: "row-order-depends-on-arrival", Msg: fmt.Sprintf("sort variant %s: arrival order %v returned the rows as %v, arrival order %v as %v",
+						v.name, firstOrder[vkey], prev, order, seq)}}, "the same host results in another arrival order")
+					break
+				}
+			}
+		}
 		switch {
 		case p != "":
 			emit(len(order), "ordered", []diff{{Cls: "panic", Msg: p}}, "the query runner panicked")
@@ -706,7 +782,8 @@ func Replay(seed uint64, racing int, in io.Reader, out io.Writer) {
 	if err != nil {
 		hx.Die("hm-replay: %v", err)
 	}
-	o.Emit(map[string]any{"summary": true, "behaviours": n, "runs": runs, "racing_runs": races, "compares": cmps, "failed": bad})
+	o.Emit(map[string]any{"summary": true, "behaviours": n, "runs": runs, "racing_runs": races, "compares": cmps, "failed": bad,
+		"row_order_compares": orderCmps, "sort_variants": variantsUsed})
 }
 
 func init() {
